@@ -426,26 +426,43 @@ func (h H) registries(rule string) {
 		got := h.switchCaseNames(fn)
 		h.C.Check(rule+" rpcType-exhaustive", h.name(fn), setEq(got, rpcs), h.fpos(fn), fmt.Sprintf("switch covers %v, declared rpc types are %v", got, rpcs))
 	}
-	// isValid answers true exactly for the declared values
-	for _, spec := range []string{"raft:(rpcType).isValid", "raft:(taskType).isValid"} {
-		fn := h.fn(spec)
-		fi := h.P.Info(fn)
-		nT, nF := 0, 0
-		for _, r := range core.Returns(fn) {
-			v := fi.Sym(r.Results[0]).String()
-			matched := fi.MustCross(r, func(a core.Atom) bool { return a.L == "$0" && a.Op == "==" }).OK
-			switch v {
-			case "true":
-				nT++
-				h.C.Check(rule+" isValid-polarity", h.name(fn)+" return true", matched, h.pos(r), "isValid answers true without matching a declared value")
-			case "false":
-				nF++
-				h.C.Check(rule+" isValid-polarity", h.name(fn)+" return false", !matched, h.pos(r), "isValid answers false for a declared value")
-			default:
-				h.C.Undecided(rule+" isValid-polarity", h.name(fn), h.pos(r), "unrecognised return "+v)
+	// isValid answers true exactly for the declared values: decided on the
+	// function's value for every declared constant and for undeclared values
+	// around them, whatever form (switch, if chain, boolean expression) it has
+	for _, w := range []struct{ spec, typ string }{{"raft:(rpcType).isValid", "rpcType"}, {"raft:(taskType).isValid", "taskType"}} {
+		fn := h.fn(w.spec)
+		declared := h.constsOfType(w.typ)
+		isDecl := map[int64]bool{}
+		var max int64
+		okT, okF, known := true, true, true
+		for _, val := range declared {
+			if i, exact := constant.Int64Val(val); exact {
+				isDecl[i] = true
+				if i > max {
+					max = i
+				}
 			}
+			r, k := evalEnumPredicate(fn, val)
+			known = known && k
+			okT = okT && r
 		}
-		h.C.Check(rule+" isValid-polarity", h.name(fn)+" both-answers", nT >= 1 && nF >= 1, h.fpos(fn), "isValid must answer true for declared and false for other values")
+		nF := 0
+		for _, i := range []int64{0, max + 1, max + 2, 200, 255} {
+			if isDecl[i] {
+				continue
+			}
+			nF++
+			r, k := evalEnumPredicate(fn, constant.MakeInt64(i))
+			known = known && k
+			okF = okF && !r
+		}
+		if !known {
+			h.C.Undecided(rule+" isValid-polarity", h.name(fn), h.fpos(fn), "the predicate could not be evaluated for a constant argument")
+			continue
+		}
+		h.C.Check(rule+" isValid-polarity", h.name(fn)+" return true", okT, h.fpos(fn), "isValid answers false for a declared value")
+		h.C.Check(rule+" isValid-polarity", h.name(fn)+" return false", okF, h.fpos(fn), "isValid answers true without matching a declared value")
+		h.C.Check(rule+" isValid-polarity", h.name(fn)+" both-answers", len(declared) >= 1 && nF >= 1, h.fpos(fn), "isValid must answer true for declared and false for other values")
 	}
 	fl := h.fn("raft:(rpcType).fromLeader")
 	// decided on the function's value for each declared constant, whatever
